@@ -358,7 +358,8 @@ impl PhoneticSuggestion {
             .get(term)
             .map(String::as_str)
             // The entries are written in Avro Phonetic (ASCII), so ignore an entry which is not.
-            .filter(|correct| correct.is_ascii())
+            // A NUL character can't be part of the strings given through the C interface either.
+            .filter(|correct| correct.is_ascii() && !correct.contains('\0'))
             .or_else(|| data.search_corrected(term))
     }
 }
